@@ -44,10 +44,11 @@ Definition C13_ok (c : case) : bool :=
   seps_ok (p_prim c) (p_sec c) 0 (p_seps c) && forallb (raw_ok c) (p_raws c).
 Definition failing (cs : list case) : list nat := index_filter C13_ok 0 cs.
 
-(* --replay: the model's combined id, and the prefix lengths / raw strings on which SeparateIds differs *)
+(* --replay: does CombineIds agree; the prefix lengths / raw strings on which SeparateIds differs; the raw strings on which
+   the prefix equivalence fails; the model's combined id *)
 Fixpoint seps_diff (comb : nid) (k : nat) (l : list (nid * nid)) : list nat :=
   match l with [] => [] | o :: t => if pair_eqb (separate_go N (firstn k comb)) o then seps_diff comb (S k) t else k :: seps_diff comb (S k) t end.
 Definition explain (c : case) :=
-  (combine_ids N (p_prim c) (p_sec c), seps_diff (p_comb c) 0 (p_seps c),
+  (ideqb (combine_ids N (p_prim c) (p_sec c)) (p_comb c), seps_diff (p_comb c) 0 (p_seps c),
    index_filter (fun r => pair_eqb (separate_go N (fst r)) (snd r)) 0 (p_raws c),
-   index_filter (raw_ok c) 0 (p_raws c)).
+   index_filter (raw_ok c) 0 (p_raws c), combine_ids N (p_prim c) (p_sec c)).
